@@ -51,3 +51,15 @@ impl LuaIndex for LuaDependencyIndex {
         self.dependencies.clear();
     }
 }
+
+/// Verification hook (feature `verif-hooks`, off by default): entry count of every container
+/// of this index, so that tests can observe growth of indexed state.
+#[cfg(feature = "verif-hooks")]
+impl LuaDependencyIndex {
+    pub fn verif_sizes(&self) -> Vec<(&'static str, usize)> {
+        vec![
+            ("dependency.dependencies", self.dependencies.len()),
+            ("dependency.dependencies.entries", self.dependencies.values().map(|m| m.len()).sum::<usize>()),
+        ]
+    }
+}
